@@ -500,6 +500,10 @@ pub fn explore<S: Spec>(spec: &S, lim: &Limits) -> (Stats, Vec<Found>) {
         if !found_all.is_empty() {
             break;
         }
+        if depth + 1 == lim.max_depth {
+            // the bound itself is reached: nothing was cut
+            break;
+        }
         if states > lim.max_states {
             stats.capped = Some(format!("state cap {} reached after depth {}", lim.max_states, depth + 1));
             break;
